@@ -9,6 +9,7 @@ import atexit
 import hashlib
 import json
 import os
+import re
 import shutil
 import subprocess
 import sys
@@ -117,7 +118,11 @@ def _headers_digest():
                 if n.endswith(('.h', '.hh', '.hpp')):
                     p = os.path.join(dp, n)
                     h.update(n.encode())
-                    h.update(open(p, 'rb').read())
+                    # generated headers carry the scratch and source directories of this very run, and CMakeLists.txt mangles the
+                    # BinReloc symbols with string(RANDOM ...): none of that is part of the identity of the tree
+                    data = open(p, 'rb').read().replace(scratch_dir().encode(), b'$S').replace(REPO.encode(), b'$R')
+                    data = re.sub(rb'BXDECAY0MB[A-Za-z0-9]{18}', b'BXDECAY0MB$RANDOM', data)
+                    h.update(data)
     h.update(open(D0AST, 'rb').read() if os.path.exists(D0AST) else b'')
     return h.hexdigest()
 
